@@ -460,6 +460,10 @@ def run_property(pid, tier="quick", seed=0, only=None, procs=None, verbose=False
         lines.append(f"INCONCLUSIVE property={pid} {e['case']}: {e['error']}")
     if ob_unknown and not new_violations:
         lines.append(f"INCONCLUSIVE property={pid} {ob_unknown} obligation(s) undecided by the solvers")
+    for it, x in zip(wit_items, wrep):
+        if x.get("observed_match") is None:
+            lines.append(f"NOTE property={pid} witness of {it['_case_id']} could not be compared under real JAX: "
+                         f"{str(x.get('exception') or x.get('error'))[:200]}")
     if truncated:
         lines.append(f"NOTE property={pid} path bound reached in {len(truncated)} case(s): {truncated[:5]}")
 
